@@ -453,7 +453,10 @@ Proof.
     destruct (negb (intersects (fs_completion (st c i)) hist)).
     + destruct (fs_trans (st c i)) as [|ti r]; [exact H|]. cbn [fst].
       destruct (negb (intersects (ft_targets (tr c ti)) (desc c i))); [|bdauto].
-      destruct (filter (fun k => i <? k) (ft_targets (tr c ti))); bdauto.
+      assert (H1 : bd (set_union es (ft_targets (tr c ti)))) by bdauto.
+      revert H1. generalize (set_union es (ft_targets (tr c ti))).
+      induction (filter (fun k => i <? k) (ft_targets (tr c ti))) as [|k rk IHk]; intros a Ha; cbn [fold_left]; [exact Ha|].
+      apply IHk. bdauto.
     + cbn [fst]. unfold set_inter. bdauto.
   - (* initial *)
     generalize (fs_trans (st c i)). intros tl. revert es ts H.
